@@ -3,7 +3,9 @@ package main
 import (
 	"context"
 	"errors"
+	"fmt"
 	"io"
+	"os"
 	"strconv"
 	"sync"
 
@@ -63,7 +65,31 @@ type ftrans struct {
 	requests [][]byte // collected request frames (size prefix included)
 	chunked  bool     // answer in three pieces, each one consumed before the next is fed
 	answered int
-	fedWhole int // answers fed completely
+	flushRet int // Flush calls that have returned
+	// peerMu serialises the peer's answers: a peer writes one frame after the
+	// other, the pieces of two answers never interleave on the stream.
+	peerMu sync.Mutex
+	fed    map[string]bool // op ids whose answer has been fed completely (into the session the request arrived in)
+
+	dbg []string // stream log (C15_STREAMLOG=1 only)
+}
+
+// The stream log is a development aid, off by default: with C15_STREAMLOG=1
+// every call of the stream (goroutine, session, bytes) is recorded and added
+// to a violation's witness.  Recording slows the stream's calls down, which
+// also widens the windows between the harness' bookkeeping and the stream's
+// own state: a run with it, under CPU load, is how the harness' own
+// synchronisation is shaken out (DESIGN 9.2).  No verdict reads it.
+var streamLog = os.Getenv("C15_STREAMLOG") != ""
+
+func (t *ftrans) dbgf(f string, a ...interface{}) {
+	if !streamLog {
+		return
+	}
+	l := "g" + curGID() + " " + fmt.Sprintf(f, a...)
+	t.mu.Lock()
+	t.dbg = append(t.dbg, l)
+	t.mu.Unlock()
 }
 
 func newFtrans() *ftrans {
@@ -95,6 +121,7 @@ func (t *ftrans) Open() error {
 		<-g
 	}
 	err := t.ScriptTransport.Open()
+	t.dbgf("Open -> %v", err)
 	if err == nil {
 		t.mu.Lock()
 		t.opensOK++
@@ -137,7 +164,9 @@ func (t *ftrans) Read(p []byte) (int, error) {
 		t.sessionCh[sess] = ch
 		t.mu.Unlock()
 	}
+	t.dbgf("Read enter sess=%d len=%d", sess, len(p))
 	n, err := t.ScriptTransport.Read(p)
+	t.dbgf("Read exit sess=%d n=%d err=%v data=%x", sess, n, err, p[:n])
 	t.mu.Lock()
 	t.inRead[sess]--
 	var g chan struct{}
@@ -171,6 +200,7 @@ func (t *ftrans) Close() error {
 	t.mu.Unlock()
 	wasOpen := t.ScriptTransport.IsOpen()
 	err := t.ScriptTransport.Close()
+	t.dbgf("Close -> %v", err)
 	if e != nil {
 		t.mu.Lock()
 		settled, noWait := t.teardownSettled, t.teardownNoWait
@@ -191,6 +221,12 @@ func (t *ftrans) Close() error {
 	return err
 }
 
+func (t *ftrans) flushReturns() int {
+	t.mu.Lock()
+	defer t.mu.Unlock()
+	return t.flushRet
+}
+
 func (t *ftrans) closeCount() int {
 	t.mu.Lock()
 	defer t.mu.Unlock()
@@ -202,6 +238,7 @@ func (t *ftrans) closeCount() int {
 // reset is visible in both directions).
 func (t *ftrans) Write(p []byte) (int, error) {
 	n, err := t.ScriptTransport.Write(p)
+	t.dbgf("Write %x -> %v", p, err)
 	if err != nil && errors.Is(err, rig.ErrReset) {
 		t.ScriptTransport.FeedError(err)
 	}
@@ -211,6 +248,10 @@ func (t *ftrans) Write(p []byte) (int, error) {
 // Flush implements thrift.TTransport (same broken-stream model as Write).
 func (t *ftrans) Flush(ctx context.Context) error {
 	err := t.ScriptTransport.Flush(ctx)
+	t.dbgf("Flush -> %v", err)
+	t.mu.Lock()
+	t.flushRet++
+	t.mu.Unlock()
 	if err != nil && errors.Is(err, rig.ErrReset) {
 		t.ScriptTransport.FeedError(err)
 	}
@@ -235,10 +276,14 @@ type ftSnap struct {
 	opensOK, readOpen, heldOpen                                                                                 int
 }
 
+// snap: inRead is the number of readers of the current stream session that
+// are parked inside the stream's Read (exact: see rig.ParkedReaders), not the
+// number of goroutines somewhere between entering and leaving ftrans.Read.
 func (t *ftrans) snap() ftSnap {
+	parked, _ := t.ScriptTransport.ParkedReaders()
 	t.mu.Lock()
 	defer t.mu.Unlock()
-	return ftSnap{t.failOpens, t.openCalls, t.openFailed, t.inRead[t.opensOK], t.readCalls, t.readErrs, t.heldReadErr, t.heldIsOpen, t.answered, len(t.requests), t.opensOK, t.readOpen, t.heldOpen}
+	return ftSnap{t.failOpens, t.openCalls, t.openFailed, parked, t.readCalls, t.readErrs, t.heldReadErr, t.heldIsOpen, t.answered, len(t.requests), t.opensOK, t.readOpen, t.heldOpen}
 }
 
 // responseFor builds the peer's answer to a request frame: same _opid, a
@@ -253,7 +298,8 @@ func responseFor(req []byte) []byte {
 }
 
 // onFrame is the scripted peer: called by Flush (outside the script's lock)
-// for every complete request frame.
+// for every complete request frame.  The answer goes to the stream session
+// in which the peer took the request up, one answer at a time.
 func (t *ftrans) onFrame(frame []byte) {
 	t.mu.Lock()
 	if t.collect {
@@ -268,14 +314,24 @@ func (t *ftrans) onFrame(frame []byte) {
 	if resp == nil {
 		return
 	}
+	h, _, _ := wire.ParseFrame(frame)
+	opid := h["_opid"]
+	gen := t.ScriptTransport.Gen()
+	t.peerMu.Lock()
+	defer t.peerMu.Unlock()
 	fedAll := func() {
 		t.mu.Lock()
-		t.fedWhole++
+		if t.fed == nil {
+			t.fed = map[string]bool{}
+		}
+		t.fed[opid] = true
 		t.mu.Unlock()
 	}
 	if !chunked {
-		t.Feed(resp)
-		fedAll()
+		t.dbgf("peer feeds %x", resp)
+		if t.FeedGen(resp, gen) {
+			fedAll()
+		}
 		return
 	}
 	// three pieces: inside the size field, inside the headers, the rest; each
@@ -284,33 +340,38 @@ func (t *ftrans) onFrame(frame []byte) {
 	cuts := []int{2, 4 + (len(resp)-4)/2, len(resp)}
 	prev := 0
 	for _, c := range cuts {
-		t.Feed(resp[prev:c])
+		t.dbgf("peer feeds piece %x", resp[prev:c])
+		if !t.FeedGen(resp[prev:c], gen) {
+			return
+		}
 		prev = c
 		if c == len(resp) {
 			fedAll()
 		}
-		if !t.waitConsumed() {
+		if !t.waitConsumed(gen) {
 			return
 		}
 	}
 }
 
-func (t *ftrans) fedCount() int {
+// fedFor: the answer to the request with that op id has been fed completely.
+func (t *ftrans) fedFor(opid string) bool {
 	t.mu.Lock()
 	defer t.mu.Unlock()
-	return t.fedWhole
+	return t.fed[opid]
 }
 
-// waitConsumed waits until the reader has taken every fed byte and is parked
-// in Read again; false when the reader failed or the stream was closed
-// instead (event polling, generous bound; never a verdict).
-func (t *ftrans) waitConsumed() bool {
+// waitConsumed waits until a reader of stream session gen has taken every fed
+// byte and is parked in Read again; false when the reader failed or the
+// stream was closed (or reopened) instead (event polling, generous bound;
+// never a verdict).
+func (t *ftrans) waitConsumed(gen int) bool {
 	start := t.snap().readErrs
 	return pollUntil(func() (done, ok bool) {
-		s := t.snap()
-		if s.readErrs != start || !t.ScriptTransport.IsOpen() {
+		if t.snap().readErrs != start || !t.ScriptTransport.IsOpen() || t.ScriptTransport.Gen() != gen {
 			return true, false
 		}
-		return t.Pending() == 0 && s.inRead > 0, true
+		parked, pending := t.ScriptTransport.ParkedReaders()
+		return parked > 0 && pending == 0, true
 	})
 }
